@@ -1,10 +1,10 @@
 (* C09 — the closed loop controller + stores on an operator's own steps.
    Bounded part: every plan the builder model produces for <= 3 stores (the domain of
    proof/C08_BuilderProof.v) is run through the controller model with the store model applying every
-   command: no command is refused or stale, the operator is never cancelled and ends in SUCCESS —
-   outside the classes C08 excludes and outside the class refuted here (a peer removed and re-added
-   with the same id).  Witnesses: that class (judged stale on its own steps), and the S2 over-count of
-   ChangePeerV2Leave.ConfVerChanged. *)
+   command: no command is refused or stale, the operator is never cancelled and ends in SUCCESS.
+   Witnesses: a hand-made plan that removes a peer and re-adds it with the same id is judged stale on its
+   own steps (the builder produced such plans before it was repaired; it now allocates a new id), and the
+   accounting of ChangePeerV2Leave.ConfVerChanged. *)
 From Coq Require Import String.
 From PDV Require Import lib.Base gen.Gen_C08 gen.Gen_C09 model.C08_Steps model.C08_Builder model.C09_OpCtl
      proof.C08_BuilderProof proof.C09_StatusProof.
@@ -32,7 +32,7 @@ Definition own_case_ok (i : binput) : bool :=
   match prepared i with
   | None => true
   | Some b => match build i with
-              | Built ss _ _ => excluded b || readded_same_id ss || plan_runs_ok (i_region i) ss
+              | Built ss _ _ => plan_runs_ok (i_region i) ss
               | _ => true
               end
   end.
@@ -45,10 +45,10 @@ Lemma own_ok_3 : forall_inputs 3 own_case_ok = true.
 Proof. vm_cast_no_check (@eq_refl bool true). Qed.
 
 Lemma own_case_ok_elim i b ss kl kr :
-  own_case_ok i = true -> prepared i = Some b -> build i = Built ss kl kr -> excluded b = false -> readded_same_id ss = false ->
+  own_case_ok i = true -> prepared i = Some b -> build i = Built ss kl kr ->
   plan_runs_ok (i_region i) ss = true.
 Proof.
-  unfold own_case_ok. intros H Hp Hb He Hr. rewrite Hp, Hb, He, Hr in H. cbn [orb] in H. exact H.
+  unfold own_case_ok. intros H Hp Hb. rewrite Hp, Hb in H. exact H.
 Qed.
 
 Lemma own_steps_never_stale_bounded_pf :
@@ -59,10 +59,10 @@ Lemma own_steps_never_stale_bounded_pf :
     In lok (vectors [true; false] n) -> In m modes ->
   forall b ss kl kr,
     prepared (mk_input n ov ol tv tl lok m force) = Some b ->
-    build (mk_input n ov ol tv tl lok m force) = Built ss kl kr -> excluded b = false -> readded_same_id ss = false ->
+    build (mk_input n ov ol tv tl lok m force) = Built ss kl kr ->
     plan_runs_ok (i_region (mk_input n ov ol tv tl lok m force)) ss = true.
 Proof.
-  intros n Hn ov ol tv tl lok m force Hov Hol Htv Htl Hlok Hm b ss kl kr Hp Hb He Hr.
+  intros n Hn ov ol tv tl lok m force Hov Hol Htv Htl Hlok Hm b ss kl kr Hp Hb.
   eapply own_case_ok_elim; eauto.
   destruct n as [|[|[|[|n]]]]; try lia.
   - exact (forall_inputs_spec 1 own_case_ok own_ok_1 ov ol tv tl lok m force Hov Hol Htv Htl Hlok Hm).
@@ -70,17 +70,22 @@ Proof.
   - exact (forall_inputs_spec 3 own_case_ok own_ok_3 ov ol tv tl lok m force Hov Hol Htv Htl Hlok Hm).
 Qed.
 
-(* ---------- refutation: judged stale on its own steps ---------- *)
-(* JointConsensus unsupported; {1 voter, 4 voter leader, 5 voter}; the builder's plan for
-   DemoteVoter(5) + AddPeer(6 learner): remove 5, add learner 5 with the SAME peer id, add learner 6 *)
+(* ---------- a peer removed and re-added with the same id: judged stale on its own steps ---------- *)
+(* JointConsensus unsupported; {1 voter, 4 voter leader, 5 voter}; DemoteVoter(5) + AddPeer(6 learner).
+   Before the repair the builder produced stale_plan (remove 5, add learner 5 with the SAME peer id, add learner 6);
+   now the re-added peer gets a new id. *)
 Definition stale_region : region := Region [Peer 1 1007 Voter; Peer 4 1014 Voter; Peer 5 1021 Voter] 4 2 3.
 Definition stale_plan : list step := [RemovePeer 5 1021; AddLearner 5 1021; AddLearner 6 1].
+Definition fresh_plan : list step := [RemovePeer 5 1021; AddLearner 5 2; AddLearner 6 1].
 
 Definition stale_input : binput :=
   BInput (Cluster [up_store 1; up_store 4; up_store 5; up_store 6] false true 0) stale_region [] false
-         [ODemoteVoter 5; OAddPeer (Peer 6 0 Learner)] [(6, 1)].
+         [ODemoteVoter 5; OAddPeer (Peer 6 0 Learner)] [(5, 2); (6, 1)].
 
-Lemma stale_plan_is_built : build stale_input = Built stale_plan false true.
+Lemma fresh_plan_is_built : build stale_input = Built fresh_plan false true.
+Proof. vm_compute. reflexivity. Qed.
+
+Lemma fresh_plan_runs : plan_runs_ok stale_region fresh_plan = true.
 Proof. vm_compute. reflexivity. Qed.
 
 Lemma stale_plan_accepted_by_checker :
